@@ -109,18 +109,18 @@ impl<C: Suite> Model for M01<C> {
         }
         let mut a = vec![];
         if s.sk_c == SkCodec::Plain(Codec::None) {
-            for c in [Codec::Bytes, Codec::Bare, Codec::Json, Codec::Be, Codec::Le] {
+            for c in [Codec::Bytes, Codec::Bare, Codec::Json, Codec::JsonReader, Codec::JsonValue, Codec::Be, Codec::Le] {
                 a.push(Act::Sk(SkCodec::Plain(c)));
                 a.push(Act::Sk(SkCodec::Enum(c)));
             }
         }
         if s.pk_c == Codec::None {
-            for c in [Codec::Bytes, Codec::Bare, Codec::Json] {
+            for c in [Codec::Bytes, Codec::Bare, Codec::Json, Codec::JsonReader, Codec::JsonValue] {
                 a.push(Act::Pk(c));
             }
         }
         if s.sig_c == Codec::None {
-            for c in [Codec::Bytes, Codec::Bare, Codec::Json] {
+            for c in [Codec::Bytes, Codec::Bare, Codec::Json, Codec::JsonReader, Codec::JsonValue] {
                 a.push(Act::Sig(c));
             }
         }
